@@ -15,6 +15,7 @@ from fractions import Fraction
 import numpy as np
 from .. import common
 from ..translator import py2lean
+from .. import corethm
 from ..common import enc, ask, call
 
 LEVEL = "proof"
@@ -25,7 +26,9 @@ RULE = ("landscapes built by the real classes from generated diagrams (1-7 bars;
         "sub-stream) as single / negated / difference / P-P / random linear combinations of 2-3 landscapes (exact and "
         "grid, 5-40 grid nodes), plus synthetic piecewise-linear functions with forced zeros and equal neighbours fed "
         "to _p_norm directly; every natural p in 1..20 and real p in [1,20]; a malformed stream (p<0, p=0, p=-1, "
-        "0<p<1, vertical segments, empty landscapes); non-trivial = the function has a sign-crossing or negative "
+        "0<p<1, vertical segments, empty landscapes); grid landscapes on which no bar is visible (bars shorter than a step: one zero "
+        "row); depths of C09's class that are not strictly increasing (repeated points, [[b,0],[b,0],[b,0]], single points); a "
+        "large-exponent stream (integer and real p up to 100, scales 2^-21..2^21); non-trivial = the function has a sign-crossing or negative "
         "segment or at least two depths; distinct by digest of (operation, p, critical pairs)")
 ASSUMPTIONS = ["critical pairs / grid values are finite floats (no NaN/inf inside a landscape)",
                "np.linspace(start, stop, num_steps) is passed to the model as data (its contract belongs to C08)",
@@ -37,6 +40,16 @@ ASSUMPTIONS = ["critical pairs / grid values are finite floats (no NaN/inf insid
                "attributed to the known finding (counted, KNOWN-FINDING line), any other failure is a violation",
                "large exponents: p_norm is tested for integer and real p up to 100 at scales 2^-21..2^21; failures where "
                "|p*log2(max|value|) + log2(width)| > 900 (M**p leaves the double range) are the known over/underflow finding"]
+TRUSTED = ["the compiled driver executable is trusted as compiled by Lean's compiler, not checked by the kernel",
+           "the guarded trace persim.landscapes.exact._VERIF_TRACE is used only to attribute a failing stability case to the known repeated-bar shortcut"]
+# theorems of Props/C10.lean that carry a clause of the property (closed forms of single branches, helpers, bridges between
+# guards, argument validation and the regression witnesses are excluded)
+CORE_THEOREMS = ["segment_integral", "pnorm_pow_eq_integral", "pnorm_eq_root", "pnorm_pow_nonneg", "sup_eq_max_abs", "supNormExact_eq",
+                 "supNormApprox_eq", "pnorm_homogeneous", "supNorm_homogeneous", "pnorm_self_sub_zero", "supNorm_self_sub_zero",
+                 "pnorm_triangle", "segment_integral_real", "pnorm_real_pow_eq_integral", "pNormMethod_real", "pnorm_real_homogeneous",
+                 "pnorm_real_triangle", "pnorm_pow_eq_integral_wf", "pnorm_real_pow_eq_integral_wf", "pNormMethod_real_wf",
+                 "supNormExact_eq_wf", "pnorm_triangle_wf", "pnorm_real_triangle_wf", "pnorm_homogeneous_wf", "landscape_stability",
+                 "landscape_sup_le_bottleneck"]
 TOL = 1e-9
 EPS = 2.220446049250313e-16
 
@@ -386,6 +399,7 @@ def pre_build(ctx):
 
 def run(ctx):
     py2lean.report_broken(ctx, PROP_FILES)
+    corethm.record(ctx, CORE_THEOREMS, ["PersimVerif/Props/C10.lean"])
     r = ctx.rng
     ex, ap, aux = _mods()
     ctx.extra["source_digest"] = {
@@ -917,7 +931,9 @@ def replay(ctx, rep):
 
 
 MANIFEST = {
-    "text": "Proof for natural and real p >= 1: Lean theorems about the model of _p_norm / p_norm / sup_norm at the reals. Each "
+    "text": "Proof for natural and real p >= 1: 48 Lean theorems in Props/C10.lean, of which 26 core (the rest: closed forms of single "
+            "branches, helpers, bridges between guards, argument validation, regression witnesses; the generated source-translation "
+            "file adds its own obligations) about the model of _p_norm / p_norm / sup_norm at the reals. Each "
             "segment term of the model (flat, sign-crossing, one-signed of either sign in the cancellation-free form of fix "
             "b342827, with the code's own -expm1((p+1) log r) for real p) equals the interval integral of |line|^p; the "
             "accumulated value equals the sum over depths of the integral of |evalPL|^p over the support and over the real "
@@ -928,17 +944,28 @@ MANIFEST = {
             "represents f + g; base.py rejects exactly p < -1 and -1 < p < 0; the pre-fix formula is refuted by norm_num on "
             "[(0,0),(1,1),(3,-1),(4,0)] (2/3 instead of 4/3). Stability is proved for the mathematical landscape: a partial "
             "matching of cost <= eps gives |lambda_k(t) - lambda'_k(t)| <= eps for all k, t, hence sup-norm distance <= "
-            "bottleneck distance. The model is tied to the code on every run at Rat (exact p-th power, natural p in 1..20, 1e-9 "
-            "relative) and at Float (real p) on exact and grid landscapes, their differences and linear combinations and on "
-            "synthetic functions with forced zeros, equal and nearly equal neighbours.",
+            "bottleneck distance. Guards: the statements are proved for strictly increasing abscissae and again (`..._wf`) for the "
+            "class C09's operations produce and preserve (wfDepth: zero end ordinates, a zero-width step only between two copies of "
+            "one point) - this includes the depth [[b,0],[b,0],[b,0]] of a zero-length bar and the single point [(x,0)], where a "
+            "zero-width flat segment contributes 0 and the sup norm needs no '2 <= length' hypothesis. "
+            "The model is tied to the code on every run at Rat (exact p-th power, natural p in 1..20, 1e-9 "
+            "relative) and at Float (real p in [1,20]) on exact and grid landscapes (incl. grid landscapes on which no bar is visible: "
+            "one zero row, all norms 0), their differences and linear combinations and on synthetic functions with forced zeros, "
+            "equal and nearly equal neighbours, repeated points and single-point depths. Tested exponent range: the correspondence "
+            "uses p <= 20; a separate [T] stream uses integer and real p up to 100 at scales 2^-21..2^21 and requires a finite, "
+            "non-zero value equal to the rescaled computation. Two known findings are replayed on every run (KNOWN-FINDING lines "
+            "while they fail): (a) M**p is formed in double precision before the root, so p_norm is inf / 0.0 once "
+            "|p*log2(max|value|) + log2(width)| exceeds about 1000 (failures beyond 900 are attributed to it, nearer ones are "
+            "VIOLATIONs); (b) the stability clause fails where the C03 repeated-bar shortcut fires (every stability case is "
+            "evaluated; a failure is attributed only when the guarded trace says the shortcut fired while the landscapes were built).",
     "note": "Theorems are exact-arithmetic (reals). [T] only: behaviour under float rounding — finiteness, accuracy and the laws "
             "on the real code (law stream + quadrature oracle; this is what exposed the near-flat cancellation repaired by "
             "b342827); the Float model's expm1 is Kahan's exp/log formula (core Lean has no expm1), np.expm1/np.log/C pow are "
             "trusted to agree with it to 1e-9. The stability theorem is about PL.landscape; its transfer to the code's sweep "
-            "rests on C03/C09 and is additionally tested against persim.bottleneck (cases where the C03 repeated-bar shortcut "
-            "fires are skipped and counted). Grid landscapes: np.linspace is passed to the model as data (strictly increasing "
+            "rests on C03/C09 and is additionally tested against persim.bottleneck on every case (failures where the C03 repeated-bar "
+            "shortcut fired are the known finding: counted and reported as KNOWN-FINDING, not skipped). Grid landscapes: np.linspace is passed to the model as data (strictly increasing "
             "grid is C08's contract). Trusted: Lean kernel + Mathlib, axioms propext/Classical.choice/Quot.sound; the "
-            "correspondence harness. Observation outside the property (p >= 1): p_norm(-1) returns NaN instead of the sup norm, "
+            "correspondence harness and the compiled driver executable (compiled by Lean's compiler, not checked by the kernel). Observation outside the property (p >= 1): p_norm(-1) returns NaN instead of the sup norm, "
             "because both subclasses discard the value of super().p_norm — modelled as is (pNormMethod).",
     "technique": "Lean 4 theorems (Mathlib interval/Bochner integrals, rpow, Minkowski) over a hand-written model + differential correspondence at Rat/Float + quadrature oracle",
 }
